@@ -36,6 +36,7 @@ def main():
                 print(os.path.basename(d), p, "CAUGHT" if vio and c.returncode == 1 else "MISSED", res[p]["first"][:1], flush=True)
         finally:
             sh("git -C /repo checkout -- . && git -C /repo clean -fdq crates")
+            sh(f"git -C {VERIF} checkout -- lean/JxlModel/Gen")      # generated files follow /repo again
             for f, txt in saved.items():      # evidence must come from the unchanged tree
                 if txt is not None:
                     open(f, "w").write(txt)
